@@ -145,7 +145,9 @@ Inductive ev :=
 | DstReload
 | UlmBegin
 | UlmPre                                   (* one step of the preload on the copy *)
-| UlmMerge.
+| UlmMerge
+| CloneInfoFail (stage : nat) (rev : N).   (* UpdateCloneInfo whose write of volume.meta (stage 0) or of the head's
+                                              .meta (stage 1: the counter is set by then) fails: it returns the error *)
 
 Definition src_write (fx : bool) (K : nat) (s : rb) (off : nat) (data : list N) : rb :=
   let '(d1, hs) := write_at fx K (src s) data off in set_src s d1 (spend s ++ hs).
@@ -193,6 +195,11 @@ Definition step (fx : bool) (K : nat) (s : rb) (e : ev) : rb :=
           else s
       | _ => s
       end
+  | CloneInfoFail stage rev =>
+      (* replica.go UpdateCloneInfo: volume.meta first, then the revision counter, then the head's .meta; the head is
+         rewired (what the next Reload sees) only by the last write *)
+      if reloaded s || (stage =? 0) then s
+      else mkrb (src s) (spend s) (dst s) (dpend s) (lowc s) (wired s) (reloaded s) (uph s) rev
   end.
 
 Fixpoint run (fx : bool) (K : nat) (s : rb) (es : list ev) : rb :=
